@@ -15,6 +15,7 @@ import (
 	"os"
 	"strconv"
 	"strings"
+	"sync"
 	"sync/atomic"
 
 	cloudstorage "cloud.google.com/go/storage"
@@ -462,7 +463,9 @@ func (g *GcsEmu) handleGcsCopy(ctx context.Context, baseUrl HttpBaseUrl, w http.
 type uploadData struct {
 	Object storage.Object
 	Conds  cloudstorage.Conditions
-	data   []byte
+
+	mu   sync.Mutex // serialises chunk requests of one upload id
+	data []byte
 }
 
 func (g *GcsEmu) handleGcsNewBucket(ctx context.Context, w http.ResponseWriter, r *http.Request, _ cloudstorage.Conditions) {
@@ -577,6 +580,8 @@ func (g *GcsEmu) handleGcsNewObjectResume(ctx context.Context, baseUrl HttpBaseU
 	}
 
 	u := found.(*uploadData)
+	u.mu.Lock()
+	defer u.mu.Unlock()
 
 	contents, err := io.ReadAll(r.Body)
 	if err != nil {
